@@ -211,6 +211,20 @@ func prop(t *rapid.T) {
 		switch bodyFormat {
 		case "form":
 			body = append(append([]byte{}, body...), rapid.SampledFrom([]string{"&tags=%zz", "&name=a%", "&%z=1", "&age=1%zz"}).Draw(t, "badEscape")...)
+		case "xml":
+			// not well-formed: a bare '&', an undefined entity, an unquoted attribute value, a missing end tag - or cut off
+			switch rapid.IntRange(0, 4).Draw(t, "xmlDefect") {
+			case 0:
+				body = bytes.Replace(body, []byte("</payload>"), []byte(" & </payload>"), 1)
+			case 1:
+				body = bytes.Replace(body, []byte("</payload>"), []byte("&nosuchentity;</payload>"), 1)
+			case 2:
+				body = bytes.Replace(body, []byte("<payload>"), []byte("<payload kind=plain>"), 1)
+			case 3:
+				body = bytes.Replace(body, []byte("</age>"), []byte(""), 1)
+			default:
+				body = body[:len(body)-rapid.IntRange(1, 3).Draw(t, "cutOff")]
+			}
 		default:
 			body = body[:len(body)-rapid.IntRange(1, 3).Draw(t, "cutOff")]
 		}
